@@ -222,9 +222,12 @@ def run_family(ctx, pid):
         ctx.save_debug(r, "gen.txt")
         raise vlib.Inconclusive("no cases generated: " + vlib.tail(r.out))
     rng.shuffle(cases)
-    # requests from inside the core (catalogue Cfg6) form a family of their own
-    eos = [c for c in cases if c.get("quiet")]
-    cases = [c for c in cases if not c.get("quiet")]
+    # requests from inside the core (catalogues Cfg6, Cfg7) form a family of their own
+    def watched_stop(c):
+        h1, h2 = (next(h for h in c["hooks"] if h["id"] == i) for i in ("h1", "h2"))
+        return (h1["tm"], h1["tw"], h2["tm"], h2["tw"]) == ("after_STOP_ACTIVITY", -1, "after_STOP_ACTIVITY", 0)
+    eos = [c for c in cases if c.get("quiet") or watched_stop(c)]
+    cases = [c for c in cases if not (c.get("quiet") or watched_stop(c))]
     interesting = [c for c in cases if any(h["fails"] or (h["tm"], h["tw"]) != (h["am"], h["aw"]) for h in c["hooks"]) or c["bodyfails"]]
     # the "two hooks meeting in one moment" catalogue (Cfg3Valid: h2 may be non-critical) is replayed completely
     def is_meet(c):
